@@ -78,9 +78,40 @@ def rule_efforder(ctx, prop: str) -> RuleResult:
                             f"case {'/'.join(ctors)}: the reads of the statement's operands are appended AFTER its own effect. The location-set computation walks the list backwards and a write hides "
                             f"later reads of the same location, so `CFG.a = CFG.a + 1` hides its own read of CFG.a (and every later one): a configuration write placed or deleted in front of it "
                             f"is judged invisible"))
+    # the body of a loop is analysed under the loop-invariant dataflow only: whatever global
+    # (configuration) value the loop itself may change is unknown on entry to the body.  That is the
+    # `E.BindEnv(globenv([s]))` PREFIX of the body's effect list.  Without it every iteration is analysed with
+    # the pre-loop values: a guard on a field the loop writes is decided with the stale value and the
+    # configuration reads behind it vanish from the read-later set of delete_config / call_eqv
+    from .. import pat
+
+    res.instances += 1
+    res.nontrivial += 1
+    fcase = [(c, b, n_) for c, b, n_ in _case_of(f, subj) if "For" in c]
+    ok = False
+    if fcase:
+        _, fbody, fnode = fcase[0]
+        wrapper = ast.Module(body=fbody, type_ignores=[])
+        hits = pat.find_all("[E.BindEnv(globenv([_M_s]))] + stmts_effs(_M_s.body)", wrapper)
+        for node_, b in hits:
+            if ast.unparse(b["_M_s"]) == subj:
+                # ... and that list is what goes into the E.Loop
+                par_ = parent(node_)
+                tgt = par_.targets[0].id if isinstance(par_, ast.Assign) and isinstance(par_.targets[0], ast.Name) else None
+                loops = [k for st in fbody for k in ast.walk(st) if isinstance(k, ast.Call) and isinstance(k.func, ast.Attribute) and dotted(k.func.value) == "E" and k.func.attr == "Loop"]
+                if loops and (tgt is None or any(isinstance(x, ast.Name) and x.id == tgt for lp in loops for x in ast.walk(lp))):
+                    ok = True
+    else:
+        raise AnalysisError("anchor vanished: For case of stmts_effs")
+    res.ob(ok)
+    res.sample(f"stmts_effs case For: body effects prefixed by the loop-invariant dataflow BindEnv(globenv([{subj}])): {ok}")
+    if not ok:
+        res.add(Finding("EFFORDER", NE, fcase[0][2].lineno, "stmts_effs", "loop-havoc-prefix",
+                        "the effects of a loop body are not prefixed by `E.BindEnv(globenv([s]))`: configuration fields the loop itself writes keep their pre-loop value in the analysis of every "
+                        "iteration, so a read guarded by such a field (reachable only from the second iteration on) is not seen and delete_config / write_config / call_eqv accept a change of a value that is read later"))
     if n_cases < 5:
         raise AnalysisError(f"EFFORDER: expected >= 5 statement cases with operand reads and an own effect in stmts_effs, found {n_cases}")
-    res.floor = 5
+    res.floor = 6
     return res
 
 
